@@ -79,4 +79,11 @@ CHECKS = {
         "expect_probes": ["c07_pairs_checked", "c07_restoring_checked", "c07_couplings_checked", "contact_phases_with_forces"],
         "assumptions": COMMON_ASSUME + ["the atomicity of concurrent force accumulation is a TSan matter, not reachable by the serialising scheduler"],
     },
+    "C14": {
+        "jobs": [{"variant": "asan_cm1_dm0", "workload": "w14", "focus": "C14", "share": 1.0, "chunk": 8, "dual": 0.0}],
+        "budget": {"quick": 75, "thorough": 1200},
+        "rule": "one case = one generated tissue (1-5 jittered ellipsoid cells of all types; separated, touching or overlapping; growth / division / removal scenarios) executed twice under the same seed, team, schedule and frozen clock: as generated and translated by t (classes: 0.1 L, 10 L, 300 L, across the origin, whole voxels of the contact grid); after every iteration cell count, ids, connectivity, positions (minus t), volumes and pressures must agree; a mismatch counts only if an independently drawn t' of the same class mismatches too; distinct = distinct reference trajectory hash; non-trivial = at least 3 compared iterations of a stable reference run",
+        "expect_probes": ["pairs_compared", "stopped_at_first_division"],
+        "assumptions": COMMON_ASSUME + ["tolerances: positions 1e-7 L + 64 ulp(|t|) + 50 L eps (|t|/L)^3, volumes/pressures 1e-7 + 4000 eps (|t|/L)^3 relative (the code sums volume terms about the origin)", "trajectories are compared up to and including the population right after the first division: the daughters share their interface exactly and contact decisions between coincident nodes are ties decided by rounding noise", "generator shapes are jittered ellipsoids (a symmetric mesh makes the division axis and plane/edge intersections degenerate)", "reference runs that end in an instability exception are discarded"],
+    },
 }
